@@ -38,7 +38,7 @@ pub fn dangerous(u: &str) -> bool {
 fn disguise(rng: &mut Rng, scheme: &str) -> String {
     let mut s = String::new();
     for c in scheme.chars().chain(std::iter::once(':')) {
-        match rng.below(12) {
+        match rng.below(14) {
             0 => s.push(c.to_ascii_uppercase()),
             1 => s.push_str(&format!("&#{};", c as u32)),
             2 => s.push_str(&format!("&#x{:x};", c as u32)),
@@ -48,6 +48,9 @@ fn disguise(rng: &mut Rng, scheme: &str) -> String {
             6 => { s.push(c); s.push_str(*rng.pick(&["&Tab;", "&NewLine;", "&#9;", "&#10;", "&#13;", "\\\t", "%09", "%0A", "&#0;", "&#1;", "&nbsp;", "&ZeroWidthSpace;", "\u{200b}"])); }
             7 => s.push_str(&format!("%{:02X}", c as u32)),
             8 => s.push_str(&format!("&#{:07};", c as u32)),
+            // two levels: the reference's own ampersand is itself escaped (markdown decodes one level only)
+            9 => s.push_str(&format!("{}#{};", rng.pick(&["&amp;", "\\&", "&#38;", "&#x26;"]), c as u32)),
+            10 if c == ':' => s.push_str(*rng.pick(&["&amp;colon;", "\\&colon;", "&amp;#58;", "&amp;#x3a;"])),
             _ => s.push(c),
         }
     }
@@ -62,8 +65,39 @@ fn urls<'a>(n: &'a Node, out: &mut Vec<(String, String)>) {
     for c in n.children.iter() { urls(c, out); }
 }
 
+/// what a browser makes of an attribute value: EVERY character reference is decoded (numeric ones also
+/// without the final semicolon), one pass
 fn attr_unescape(s: &str) -> String {
-    s.replace("&lt;", "<").replace("&gt;", ">").replace("&quot;", "\"").replace("&amp;", "&")
+    let b: Vec<char> = s.chars().collect();
+    let mut o = String::new();
+    let mut i = 0;
+    while i < b.len() {
+        if b[i] != '&' { o.push(b[i]); i += 1; continue; }
+        // numeric
+        if i + 2 < b.len() && b[i + 1] == '#' {
+            let (hex, mut j) = if b[i + 2] == 'x' || b[i + 2] == 'X' { (true, i + 3) } else { (false, i + 2) };
+            let st = j;
+            while j < b.len() && (if hex { b[j].is_ascii_hexdigit() } else { b[j].is_ascii_digit() }) && j - st < 8 { j += 1; }
+            if j > st {
+                let digits: String = b[st..j].iter().collect();
+                if let Ok(code) = u32::from_str_radix(&digits, if hex { 16 } else { 10 }) {
+                    o.push(char::from_u32(code).filter(|c| *c != '\0').unwrap_or('\u{fffd}'));
+                    i = if j < b.len() && b[j] == ';' { j + 1 } else { j };
+                    continue;
+                }
+            }
+        }
+        // named (with semicolon)
+        let mut j = i + 1;
+        while j < b.len() && b[j].is_ascii_alphanumeric() && j - i < 34 { j += 1; }
+        if j < b.len() && b[j] == ';' && j > i + 1 {
+            let name: String = b[i..=j].iter().collect();
+            if let Some(e) = entities::ENTITIES.iter().find(|e| e.entity == name) { o.push_str(e.characters); i = j + 1; continue; }
+        }
+        o.push('&');
+        i += 1;
+    }
+    o
 }
 
 pub fn html_urls(html: &str) -> Vec<String> {
